@@ -23,18 +23,16 @@ PROPS = {
     },
     "C12": {
         "harness": "c12",
-        "theorems": ["DL.C12_flatten", "DL.C12_order", "DL.C12_mother_not_stable"],
-        "partial": ["termination of the loop for acyclic chains (existence of enough fuel) is not yet a theorem: C12_flatten is "
-                    "partial correctness (whenever the loop ends); float rounding is outside the model (exact rationals; "
-                    "floats compared to 1e-12 in the harness)",
+        "theorems": ["DL.C12_flatten", "DL.C12_order", "DL.C12_mother_not_stable", "DL.C12_terminates", "DL.hasEntries_of_keys",
+                     "DL.floop_terminates", "DL.fpass_bound"],
+        "partial": ["float rounding is outside the model (exact rationals / any commutative monoid; floats compared to 1e-12 in the harness)",
                     "'leaves the original chain unchanged' is a runtime aliasing clause: checked by the harness snapshot"],
         "assumptions": ["branching fractions form a commutative monoid (exact arithmetic)"],
     },
     "C09": {
         "harness": "c09",
-        "theorems": ["DL.C09_spec", "DL.C09_unique", "DL.C09_notfound", "DL.C09_found", "DL.isUnfold_unique"],
-        "partial": ["existence of enough fuel for acyclic tables (termination) is not yet a theorem: C09_spec is about every "
-                    "successful build"],
+        "theorems": ["DL.C09_spec", "DL.C09_unique", "DL.C09_notfound", "DL.C09_found", "DL.isUnfold_unique", "DL.C09_exists", "DL.C09_total"],
+        "partial": [],
         "assumptions": ["Python recursion is modelled by a fuel argument (64 in the driver)"],
     },
     "C10": {
